@@ -198,6 +198,10 @@ fn run_seq(sc: &Scenario, sid: u64) -> SeqOutcome {
     };
     // the order of the builder calls must not matter: alternate it
     let handler_first = sid % 2 == 0;
+    // (a handler configured again replaces the earlier one: every third history with a handler sets one twice)
+    if sc.handler && sid % 3 == 2 {
+        builder = builder.with_error_handler(handler_for(sh.clone()));
+    }
     if sc.handler && handler_first {
         builder = builder.with_error_handler(handler_for(sh.clone()));
     }
@@ -1595,7 +1599,7 @@ fn mode_compose(r: &mut Runner) {
     }
     for variant in 0..6u64 {
         if SPIN_SEEN.load(std::sync::atomic::Ordering::SeqCst) || !(r.prop == "C08" || r.prop == "C10") {
-            return;
+            break;
         }
         let n = [40usize, 300, 120, 40, 300, 120][variant as usize];
         let inner_cap = if variant % 3 == 1 { Some(4096usize) } else { None };
@@ -1678,6 +1682,107 @@ fn mode_compose(r: &mut Runner) {
         let _ = await_log(&sh, |st| st.log.iter().any(|e| matches!(e, Ev::SinkDrop { .. })));
         let _ = await_no_library_thread();
         set_current(None);
+    }
+    // metrics that an error handler itself sends through a queuing sink are queued metrics like any other: when their
+    // wrapped sink fails them, that queue's handler hears of each exactly once. Two shapes: the handler of one queue
+    // forwards into a second queue (whose sink fails too), and the handler sends a follow-up into its own queue.
+    for variant in 0..4u64 {
+        if r.prop != "C16" {
+            break;
+        }
+        let own_queue = variant % 2 == 1;
+        let n = if variant < 2 { 40usize } else { 400 };
+        let calls: Arc<M<Vec<(String, String)>>> = Arc::new(M::new(Vec::new())); // (which handler, text)
+        let submit_failed: Arc<M<Vec<String>>> = Arc::new(M::new(Vec::new()));
+        let sid = r.sid + 6 + variant;
+        let expected: usize;
+        let first: QueuingMetricSink;
+        let mut second: Option<QueuingMetricSink> = None;
+        if own_queue {
+            let slot: Arc<M<Option<QueuingMetricSink>>> = Arc::new(M::new(None));
+            let (calls2, slot2, sf2) = (std::panic::AssertUnwindSafe(calls.clone()), std::panic::AssertUnwindSafe(slot.clone()), std::panic::AssertUnwindSafe(submit_failed.clone()));
+            first = QueuingMetricSink::builder()
+                .with_error_handler(move |e: std::io::Error| {
+                    let m = e.get_ref().map(|x| x.to_string()).unwrap_or_default();
+                    calls2.lock().unwrap_or_else(|e| e.into_inner()).push(("own".into(), m.clone()));
+                    if !m.starts_with("followup.") {
+                        let q = slot2.lock().unwrap_or_else(|e| e.into_inner()).clone();
+                        if let Some(q) = q {
+                            let f = format!("followup.{}", m);
+                            if q.emit(&f).is_err() {
+                                sf2.lock().unwrap_or_else(|e| e.into_inner()).push(f);
+                            }
+                        }
+                    }
+                })
+                .build(AlwaysFails);
+            *slot.lock().unwrap() = Some(first.clone());
+            expected = 2 * n;
+            for k in 0..n {
+                let _ = first.emit(&format!("h{}.n{}:1|c", sid, k));
+            }
+            let t0 = std::time::Instant::now();
+            while calls.lock().unwrap_or_else(|e| e.into_inner()).len() < expected && t0.elapsed().as_secs() < 20 {
+                std::thread::sleep(std::time::Duration::from_millis(2));
+            }
+            // a little longer: a surplus call would come now
+            std::thread::sleep(std::time::Duration::from_millis(30));
+            *slot.lock().unwrap() = None;
+        } else {
+            let calls_b = std::panic::AssertUnwindSafe(calls.clone());
+            let q2 = QueuingMetricSink::builder()
+                .with_error_handler(move |e: std::io::Error| {
+                    let m = e.get_ref().map(|x| x.to_string()).unwrap_or_default();
+                    calls_b.lock().unwrap_or_else(|e| e.into_inner()).push(("second".into(), m));
+                })
+                .build(AlwaysFails);
+            let (calls_a, q2c, sf2) = (std::panic::AssertUnwindSafe(calls.clone()), std::panic::AssertUnwindSafe(q2.clone()), std::panic::AssertUnwindSafe(submit_failed.clone()));
+            first = QueuingMetricSink::builder()
+                .with_error_handler(move |e: std::io::Error| {
+                    let m = e.get_ref().map(|x| x.to_string()).unwrap_or_default();
+                    calls_a.lock().unwrap_or_else(|e| e.into_inner()).push(("first".into(), m.clone()));
+                    let f = format!("followup.{}", m);
+                    if q2c.emit(&f).is_err() {
+                        sf2.lock().unwrap_or_else(|e| e.into_inner()).push(f);
+                    }
+                })
+                .build(AlwaysFails);
+            second = Some(q2);
+            expected = 2 * n;
+            for k in 0..n {
+                let _ = first.emit(&format!("h{}.n{}:1|c", sid, k));
+            }
+            let t0 = std::time::Instant::now();
+            while calls.lock().unwrap_or_else(|e| e.into_inner()).len() < expected && t0.elapsed().as_secs() < 20 {
+                std::thread::sleep(std::time::Duration::from_millis(2));
+            }
+            std::thread::sleep(std::time::Duration::from_millis(30));
+        }
+        let got: Vec<(String, String)> = calls.lock().unwrap_or_else(|e| e.into_inner()).clone();
+        let sf = submit_failed.lock().unwrap_or_else(|e| e.into_inner()).len();
+        let label = format!("compose handler sends {} n={}", if own_queue { "a follow-up into its own queue" } else { "into a second queue whose sink fails too" }, n);
+        {
+            let mut rep = r.rep();
+            rep.eval();
+            rep.obs("failures_of_metrics_sent_by_an_error_handler", got.iter().filter(|(_, m)| m.starts_with("followup.")).count() as u64);
+            rep.distinct(&format!("compose-h|{}|{}", own_queue, n));
+            let followups = got.iter().filter(|(_, m)| m.starts_with("followup.")).count();
+            let mut dup = std::collections::HashMap::new();
+            for (_, m) in &got {
+                *dup.entry(m.clone()).or_insert(0usize) += 1;
+            }
+            let twice = dup.iter().find(|(_, c)| **c > 1).map(|(m, c)| (m.clone(), *c));
+            if sf > 0 {
+                rep.inconclusive(format!("{}: {} follow-ups were refused by an unbounded queue (C10's business)", label, sf));
+            } else if let Some((m, c)) = twice {
+                rep.violation(Violation { property: "C16".into(), rule: "R8".into(), class: "handler-called-twice".into(), detail: format!("[{}] the handler was called {} times for {:?}", label, c, m), replay_args: r.args.to_vec_with(&[]), trace: Json::Null });
+            } else if followups < n {
+                rep.violation(Violation { property: "C16".into(), rule: "R8".into(), class: "handler-never-called".into(), detail: format!("[{}] {} metrics sent from inside an error handler were accepted by a queuing sink and failed by its wrapped sink; its handler was called for {} of them ({} handler calls in all, {} expected)", label, n, followups, got.len(), expected), replay_args: r.args.to_vec_with(&[]), trace: Json::Null });
+            }
+        }
+        drop(first);
+        drop(second);
+        let _ = await_no_library_thread();
     }
     r.sid += 6;
 }
